@@ -13,11 +13,11 @@ for d in sorted(glob.glob(V+'/seeded/*/')):
         txt=open(f,errors='replace').read()
         v=len(re.findall(r'^VIOLATION',txt,re.M))
         runs.append(f"{c} {tier}: {'caught ('+str(v)+' VIOLATION lines)' if v else 'not caught'}")
-    title=(m.get('title') or m.get('mechanism') or '')[:150].replace('|','/')
+    title=(m.get('title') or m.get('mechanism') or '')[:115].replace('|','/')
     files=', '.join(m.get('files',[]))[:80]
     note=m.get('status_note','')
     res='; '.join(runs) or 'not run'
     if note: res=(res+' — ' if runs else '')+note
-    rows.append(f"| {name} | {title} | {files} | {res} |")
-print("| seeded change | what it breaks | files | checks run against it |\n|---|---|---|---|")
+    rows.append(f"| {name} ({files}) | {title} | {res} |")
+print("| seeded change | what it breaks | result of the registered check(s) on the final machinery |\n|---|---|---|")
 print("\n".join(rows))
